@@ -430,8 +430,10 @@ class ModuleFinder:
             module_path = path.parent
         else:
             module_path = path.with_suffix("")
-        # Always resolve the path to compare for relativeness against resolved search paths.
-        module_path = module_path.resolve()
+        # Always resolve the path to compare for relativeness against resolved search paths
+        # (only the directory: the name of the module without suffix is no path of its own,
+        # and could be the name of a symbolic link next to the module).
+        module_path = module_path.parent.resolve() / module_path.name
         # First find if the module is in search paths
         # (a module directly in a search path is a top-level module).
         for search_path in self.search_paths:
